@@ -147,3 +147,10 @@ Definition cv_ptr_cell (woff : Z -> option nat) (elsz cell : nat) : prog (option
     | None => Flt
     | Some off => Tick (rd_bytes off elsz [] (fun e => Tick (Ret (Some e))))
     end)).
+
+(* unverified_safe_pointer_because(count) on a pointer cell that lies in sandbox memory (char elements: size = count):
+   ONE fetch ; null passes through ; range check (back end consulted: an interleave point) ; that same value is returned *)
+Definition usp_cell (total size : Z) (cell : nat) : prog Z :=
+  rd_bytes cell 4 [] (fun bs =>
+    let r := le4 bs in
+    if r =? 0 then Ret 0 else Chk (r + size <=? total) (Tick (Ret r))).
